@@ -72,11 +72,42 @@ def draw_cfg(rng, engine):
         'p_alias': rng.choice([0.03, 0.08, 0.15]),
         'yield_mean': rng.choice([30, 200, 1500, 8000]),
         'p_same': rng.choice([0.0, 0.15, 0.4]),
+        'p_life': rng.choice([0.0, 0.1, 0.3]),
         'hstride': 512,
         'rslots': 64,
         'p_repeat': rng.choice([0.0, 0.08, 0.2, 0.35]),
     }
     return cfg
+
+
+class OnlyPool(object):
+    """View of the pool in which objects of one kind are restricted to a single object (the
+    generators then pick it as receiver / argument): used to script the life of one object."""
+
+    def __init__(self, pool, kind, hid):
+        self.pool, self.kind, self.hid = pool, kind, hid
+        self.copyrel = pool.copyrel
+
+    def _f(self, kind, lst):
+        if kind != self.kind:
+            return lst
+        o = self.pool.handles.get(self.hid)
+        return [(h, x) for h, x in lst if x is o]
+
+    def candidates(self, kind):
+        return self._f(kind, self.pool.candidates(kind))
+
+    def mutable(self, kind, task):
+        return self._f(kind, self.pool.mutable(kind, task))
+
+    def own(self, kind, task):
+        return self._f(kind, self.pool.own(kind, task))
+
+    def minor_info(self, hid):
+        return self.pool.minor_info(hid)
+
+
+LIFE_KINDS = ('Interpolation', 'CurveFitting', 'Angle', 'Epoch', 'Earth', 'Minor')
 
 
 class GenSource(object):
@@ -198,15 +229,37 @@ class GenSource(object):
         return {'name': '@edit_list', 'recv': None, 'args': [{'h': h}], 'kwargs': {}, 'path': path,
                 'value': float(new).hex()}
 
-    def _make_named(self, sim, task, depth, name):
+    def _make_named(self, sim, task, depth, name, only=None):
         e = ENTRIES.get(name)
         if e is None or not ops.available(e.kind, e.target):
             return None
-        g = G(self.rng, sim.pool, task, self.cfg['share'])
+        if only is None:
+            g = G(self.rng, sim.pool, task, self.cfg['share'])
+        else:
+            g = G(self.rng, OnlyPool(sim.pool, only[0], only[1]), task, 1.0)
         r = e.gen(g)
         if r is None:
             return None
+        if only is not None and not (r[0] and r[0].get('h') is not None and
+                                     sim.pool.handles.get(r[0]['h']) is sim.pool.handles.get(only[1])):
+            return None      # the generator did not take the scripted object as receiver
         return self._finish({'name': name, 'recv': r[0], 'args': r[1], 'kwargs': r[2]}, task, depth)
+
+    def _life_step(self, sim, task, depth, what, kind, hid):
+        """One scripted step in the life of object hid: 'use' (a pure method) or 'change' (a documented mutator)."""
+        if hid not in sim.pool.handles:
+            return None
+        names = [n for n in NAMES if n.startswith(kind + '.') and ENTRIES[n].kind in ('meth', 'op') and
+                 (ENTRIES[n].effect == 'pure') == (what == 'use') and ENTRIES[n].effect != 'rebind' and
+                 not n.endswith('#bad')]
+        for _ in range(5):
+            if not names:
+                return None
+            op = self._make_named(sim, task, depth, self.rng.choice(names), (kind, hid))
+            if op is not None:
+                sim.count('probe.scripted_object_life_' + what)
+                return op
+        return None
 
     def make_op(self, sim, task, depth):
         rng = self.rng
@@ -226,6 +279,10 @@ class GenSource(object):
             elif what == 'repeat':
                 sim.count('probe.call_repeated_with_equal_arguments')
                 return self._finish(copy.deepcopy(val), task, depth)
+            elif what == 'life':
+                op = self._life_step(sim, task, depth, *val)
+                if op is not None:
+                    return op
             elif what == 'again':
                 op = self._make_named(sim, task, depth, val)
                 if op is not None:
@@ -259,6 +316,13 @@ class GenSource(object):
                 sim.count('probe.' + p)
             core = {'name': name, 'recv': recv, 'args': args, 'kwargs': kwargs}
             op = self._finish(core, task, depth)
+            if e.kind == 'new' and name.split('.')[0] in LIFE_KINDS and not name.endswith('#bad') and \
+                    rng.random() < self.cfg['p_life']:
+                kind_ = name.split('.')[0]
+                hid = op['id'] * self.cfg['hstride']
+                for w in rng.choice([['use', 'change', 'use'], ['use', 'use', 'change', 'use', 'use'],
+                                     ['change', 'use'], ['use', 'change', 'change', 'use']]):
+                    q.append(('life', (w, kind_, hid)))
             has_list = any(isinstance(x, dict) and x.get('mk') == 'list' for x in args)
             if e.effect == 'pure' and rng.random() < self.cfg['p_repeat']:
                 rep = {'name': name, 'recv': copy.deepcopy(recv), 'args': copy.deepcopy(args),
